@@ -34,6 +34,10 @@ type Case struct {
 	Required bool   `json:"required"`
 	AllowEmp bool   `json:"allow_empty"`
 	Shape    string `json:"shape"`
+	// Neighbours: the operation also declares, and the request also carries, parameters whose names
+	// have the tested name as a prefix or suffix (pz as a deepObject / plain value, zp); they are
+	// valid, so neither the decoded value nor any verdict about "p" may change
+	Neighbours bool `json:"neighbours,omitempty"`
 }
 
 func TestMain(m *testing.M) { h.Main(m, "C05") }
@@ -90,7 +94,16 @@ func build(c Case) (*openapi3.T, *openapi3.Parameter, error) {
 	if c.In == "path" {
 		path = "/r/{p}"
 	}
-	raw := kinx.Doc(M{path: M{"get": M{"parameters": []any{p}, "responses": M{"200": M{"description": "d"}}}}}, nil)
+	params := []any{p}
+	if c.Neighbours && c.In != "path" {
+		if c.In == "query" {
+			params = append(params, M{"name": "pz", "in": "query", "style": "deepObject", "explode": true, "schema": M{"type": "object", "additionalProperties": true}},
+				M{"name": "zp", "in": "query", "schema": M{"type": "string"}}, M{"name": "p[x]", "in": "query", "schema": M{"type": "string"}})
+		} else {
+			params = append(params, M{"name": "pz", "in": c.In, "schema": M{"type": "string"}}, M{"name": "zp", "in": c.In, "schema": M{"type": "string"}})
+		}
+	}
+	raw := kinx.Doc(M{path: M{"get": M{"parameters": params, "responses": M{"200": M{"description": "d"}}}}}, nil)
 	doc, err := kinx.Load(raw)
 	if err != nil {
 		return nil, nil, err
@@ -102,10 +115,31 @@ func build(c Case) (*openapi3.T, *openapi3.Parameter, error) {
 func request(c Case, text string, present bool) (*http.Request, map[string]string) {
 	req, _ := http.NewRequest("GET", "http://x/r", nil)
 	pathParams := map[string]string{}
+	if c.Neighbours {
+		switch c.In {
+		case "query":
+			req.URL.RawQuery = "pz[i]=77&pz[s]=zz&pz[a]=1&zp=p"
+		case "header":
+			req.Header.Set("pz", "7,7")
+			req.Header.Set("zp", "p")
+		case "cookie":
+			defer func() {
+				if v := req.Header.Get("Cookie"); v != "" {
+					req.Header.Set("Cookie", "pz=77; "+v+"; zp=p")
+				} else {
+					req.Header.Set("Cookie", "pz=77; zp=p")
+				}
+			}()
+		}
+	}
 	if !present {
 		if c.In == "path" {
 			req.URL.Path = "/r/"
 		}
+		return req, pathParams
+	}
+	if c.In == "query" && req.URL.RawQuery != "" {
+		req.URL.RawQuery = text + "&" + req.URL.RawQuery
 		return req, pathParams
 	}
 	switch c.In {
@@ -523,6 +557,12 @@ func gen(t *rapid.T) Case {
 	sh := rapid.SampledFrom(usable).Draw(t, "shape")
 	c := Case{In: cl.in, Style: cl.style, Explode: cl.explode, Schema: sh.schema, Shape: sh.name, Presence: "present"}
 	c.Required = rapid.Bool().Draw(t, "required")
+	c.Neighbours = cl.in != "path" && rapid.IntRange(0, 2).Draw(t, "neighbours") == 0
+	if st, ex := effective(c); cl.in == "query" && st == "form" && ex && strings.HasPrefix(sh.name, "object") {
+		// the members of an exploded form object are top-level query keys: every other key of the
+		// query is a candidate member, so neighbours are not neutral there
+		c.Neighbours = false
+	}
 	// values: from the table or freshly drawn of the same shape
 	strs := legalStrings(cl, sh.name)
 	drawPrim := func(ty string) any {
